@@ -1,7 +1,7 @@
 """C10 - CAM and VAM generation follow the timing and trigger rules of their standards."""
 import z3
 from ..calls import make
-from ..values import Obj, EnumSym, SBytes, Guarded, SDict, SList, Opaque, TimerRec, UNDEF
+from ..values import Undefined, Obj, EnumSym, SBytes, Guarded, SDict, SList, Opaque, TimerRec, UNDEF
 from ..interp import TRUE, FALSE
 from ..runner import vc
 
@@ -250,6 +250,12 @@ def cam_check(ctx):
         if cams and not vals["send_fails"]:
             if not (T_MIN <= m.t_gen_cam <= T_MAX) or not (0 <= m._n_gen_cam_counter <= 2) or m._last_cam_time_ms != now or m._cam_count != vals["cam_count"] + 1:
                 msgs.append(f"state after CAM: T_GenCam={m.t_gen_cam} counter={m._n_gen_cam_counter} last={m._last_cam_time_ms} count={m._cam_count}")
+        if cams and not vals["send_fails"]:
+            for key, attr in (("track", "_last_cam_heading"), ("speed", "_last_cam_speed")):
+                if vals["has_" + key] and getattr(m, attr) != vals[key]:
+                    msgs.append(f"after the CAM the reference {attr} is {getattr(m, attr)}, the CAM was built from {key}={vals[key]}")
+            if vals["has_lat"] and vals["has_lon"] and (m._last_cam_lat, m._last_cam_lon) != (vals["lat"], vals["lon"]):
+                msgs.append(f"after the CAM the reference position is {(m._last_cam_lat, m._last_cam_lon)}, the CAM was built from {(vals['lat'], vals['lon'])}")
         if not cams or vals["send_fails"]:
             if m._last_cam_time_ms != vals["last_cam_ms"] or m._cam_count != vals["cam_count"]:
                 msgs.append("state changed without a CAM having been sent")
@@ -277,6 +283,11 @@ def cam_check(ctx):
     ctx.prove("INV-preserved", I, z3.And(ok_send, z3.Or(I.num(st["t_gen_cam"]) < T_MIN, I.num(st["t_gen_cam"]) > T_MAX, I.num(st["_n_gen_cam_counter"]) < 0,
                                                          I.num(st["_n_gen_cam_counter"]) > 2, _ne(I, st["_last_cam_time_ms"], nowms), I.num(st["_cam_count"]) != h.count + 1)),
               vars=vars_, replay=replay, desc="after a CAM: 100 <= T_GenCam <= 1000, counter in 0..2, last-CAM time = now: induction invariant giving the T_GenCamMax + one check period bound")
+    ref_bad = z3.Or(z3.And(h.keys["track"], _ne(I, st["_last_cam_heading"], h.tv["track"])), z3.And(h.keys["speed"], _ne(I, st["_last_cam_speed"], h.tv["speed"])),
+                    z3.And(h.keys["lat"], h.keys["lon"], z3.Or(_ne(I, st["_last_cam_lat"], h.tv["lat"]), _ne(I, st["_last_cam_lon"], h.tv["lon"]))))
+    ctx.prove("M3-dynamics-reference-is-the-last-cam", I, z3.And(ok_send, ref_bad), vars=vars_, replay=replay,
+              desc="after every CAM - generated for the dynamics (condition 1) or because T_GenCam elapsed (condition 2) - the heading / position / speed the next "
+                   "checks compare with are those of this CAM: 'differ from the last CAM' is judged against the last CAM, not against the last condition-1 CAM")
     ctx.prove("no-send-no-state-change", I, z3.And(z3.Or(z3.Not(attempted), h.fail), z3.Or(_ne(I, st["_last_cam_time_ms"], h.last), I.num(st["_cam_count"]) != h.count)), vars=vars_, replay=replay)
     # M7: the CAM is filled from the cached report
     def is_cached(t):
@@ -353,7 +364,7 @@ def _replay_stop(vals):
 def _ne(I, v, expected):
     if isinstance(v, Guarded):
         return z3.Not(z3.Or(*[z3.And(c, z3.Not(_ne(I, x, expected))) for c, x in v.alts]))
-    if v is None:
+    if v is None or isinstance(v, Undefined):
         return TRUE
     return I.num(v) != expected
 
